@@ -438,6 +438,14 @@ func c20TieAddColumn(r *Result, rng *rand.Rand, tier string) {
 }
 
 func init() {
-	register("C20", c20TieConstraint)
-	register("C20", c20TieAddColumn)
+	register("C20", func(r *Result, rng *rand.Rand, tier string) {
+		if c20Only("constraint") {
+			c20TieConstraint(r, rng, tier)
+		}
+	})
+	register("C20", func(r *Result, rng *rand.Rand, tier string) {
+		if c20Only("addcolumn") {
+			c20TieAddColumn(r, rng, tier)
+		}
+	})
 }
